@@ -16,6 +16,8 @@ ElemT == {TNum, TStr, TList(TNum), TObj([a |-> TNum]), TTup(<<TNum, TStr>>)}
 MemberLists(t) == {s \in SeqsUpTo(TakeN(Vals(t, W), 3) \cup {Null(t), Unk(t, NoRf)}, 2) : s # <<>>}
 MarkMembers(s) == UNION {{[s EXCEPT ![i] = m] : m \in TakeN(MarkedOf(s[i]), 4)} : i \in 1..Len(s)}
                   \cup (IF Len(s) = 2 THEN {<<WithMk(s[1], <<"m1">>), WithMk(s[2], <<"m2">>)>>} ELSE {})
+                  \* a member marked on itself AND on a nested part (two different marks)
+                  \cup UNION {{[s EXCEPT ![i] = WithMk(w, <<"m1">>)] : w \in TakeN(MarkNested(s[i], <<"m2">>), 2)} : i \in 1..Len(s)}
 CtorLines == UNION {UNION {{[k |-> "mark", api |-> api, xs |-> <<[keys |-> SubSeq(<<"a", "b">>, 1, Len(s))]>>, a |-> s, vs |-> SetToSeq(MarkMembers(s))]
                             : api \in {"SetVal", "ListVal", "TupleVal", "MapVal", "ObjectVal"}} : s \in MemberLists(t)} : t \in ElemT}
 \* the mark API itself: receiver and source values, each possibly marked (top level or nested)
